@@ -4,20 +4,18 @@ use embedded_graphics::mono_font::ascii::FONT_4X6;
 
 const BIG: Rectangle = Rectangle::new(Point::new(-100000, -100000), Size::new(200000, 200000));
 
-/// structural claims of the closed shapes: translate == translate_mut, bounding boxes and
-/// contains() shift by d (loop-free, wide symbolic ranges)
-#[cfg_attr(kani, kani::proof, kani::unwind(6))]
-pub fn c07_q_struct_closed() {
-    let tl = point(8);
-    let sz = size(6);
-    let d = point(8);
-    let q = point(9);
-    note!("top_left", tl); note!("size", sz); note!("d", d); note!("q", q);
-    let which = pick(5);
-    note!("shape", which);
-    macro_rules! claims {
-        ($s:expr) => {{
-            let s = $s;
+/// structural claims of one closed shape: translate == translate_mut, bounding boxes and contains()
+/// shift by d (loop-free)
+macro_rules! c07_struct {
+    ($name:ident, $pb:expr, $sb:expr, |$tl:ident, $sz:ident| $mk:expr) => {
+        #[cfg_attr(kani, kani::proof, kani::unwind(6))]
+        pub fn $name() {
+            let $tl = point($pb);
+            let $sz = size($sb);
+            let d = point($pb);
+            let q = point($pb + 1);
+            note!("top_left", $tl); note!("size", $sz); note!("d", d); note!("q", q);
+            let s = $mk;
             let t = s.translate(d);
             let mut m = s;
             m.translate_mut(d);
@@ -28,17 +26,19 @@ pub fn c07_q_struct_closed() {
             let st = style(small_u(3), alignment(), Some(Gray8::new(1)), Some(Gray8::new(2)));
             let (sb0, sb1) = (s.into_styled(st).bounding_box(), s.into_styled(st).translate(d).bounding_box());
             if !sb0.is_zero_sized() { check!(sb1 == Rectangle::new(sb0.top_left + d, sb0.size), "C07.styled_bbox"); }
-        }};
-    }
-    match which {
-        0 => claims!(Rectangle::new(tl, sz)),
-        1 => claims!(Circle::new(tl, sz.width)),
-        2 => claims!(Ellipse::new(tl, sz)),
-        3 => claims!(RoundedRectangle::with_equal_corners(Rectangle::new(tl, sz), size(5))),
-        _ => claims!(Sector::new(tl, sz.width, Angle::from_degrees(20.0), Angle::from_degrees(250.0))),
-    }
-    reach!(which == 2, "reach.ellipse");
+            reach!(s.contains(q), "reach.contained");
+        }
+    };
 }
+c07_struct!(c07_q_struct_rect, 8, 6, |tl, sz| Rectangle::new(tl, sz));
+c07_struct!(c07_q_struct_circle, 5, 4, |tl, sz| Circle::new(tl, sz.width));
+c07_struct!(c07_q_struct_ellipse, 5, 3, |tl, sz| Ellipse::new(tl, sz));
+#[cfg(feature = "thorough")]
+c07_struct!(c07_t_struct_rrect, 4, 3, |tl, sz| RoundedRectangle::with_equal_corners(Rectangle::new(tl, sz), Size::new(1, 2)));
+#[cfg(feature = "thorough")]
+c07_struct!(c07_t_struct_ellipse_b5, 7, 5, |tl, sz| Ellipse::new(tl, sz));
+#[cfg(feature = "thorough")]
+c07_struct!(c07_t_struct_circle_b6, 7, 6, |tl, sz| Circle::new(tl, sz.width));
 
 /// Rectangle rendering commutes with translation for EVERY offset (native target, loop-free)
 #[cfg_attr(kani, kani::proof, kani::unwind(4))]
@@ -81,6 +81,15 @@ pub fn c07_q_struct_open() {
     let mut pm = p;
     pm.translate_mut(d);
     check!(pm == p.translate(d), "C07.translate_mut_eq_translate");
+    // from a state that has already been moved (the polyline keeps an internal offset)
+    let d2 = point(6);
+    let mut pm2 = p.translate(d);
+    pm2.translate_mut(d2);
+    check!(pm2 == p.translate(d).translate(d2), "C07.translate_mut_eq_translate");
+    check!(pm2.bounding_box() == Rectangle::new(pb.top_left + d + d2, pb.size), "C07.bbox");
+    let mut tm2 = t.translate(d);
+    tm2.translate_mut(d2);
+    check!(tm2 == t.translate(d + d2), "C07.translate_mut_eq_translate");
     reach!(d.x < 0 && a.x > 0 && a.x + d.x < 0, "reach.crosses_axis");
 }
 
@@ -207,11 +216,13 @@ pub mod kernels {
     use super::*;
     use embedded_graphics::primitives::verif_hooks as hk;
     /// join intersection kernel: the intersection point of two lines shifts by d, same outer side
+    macro_rules! c07_k_intersection {
+        ($name:ident, $lb:expr, $db:expr) => {
     #[cfg_attr(kani, kani::proof, kani::unwind(4))]
-    pub fn c07_q_k_intersection() {
-        let l1 = Line::new(point(5), point(5));
-        let l2 = Line::new(point(5), point(5));
-        let d = point(7);
+    pub fn $name() {
+        let l1 = Line::new(point($lb), point($lb));
+        let l2 = Line::new(point($lb), point($lb));
+        let d = point($db);
         note!("l1", l1); note!("l2", l2); note!("d", d);
         let r0 = hk::line_intersection(&l1, &l2);
         let r1 = hk::line_intersection(&l1.translate(d), &l2.translate(d));
@@ -223,6 +234,11 @@ pub mod kernels {
         }
         reach!(r0.is_some(), "reach.intersect");
     }
+        };
+    }
+    c07_k_intersection!(c07_q_k_intersection, 2, 3);
+    #[cfg(feature = "thorough")]
+    c07_k_intersection!(c07_t_k_intersection_b3, 3, 4);
 }
 
 /// Reachability twin.
